@@ -13,6 +13,22 @@ COMMON_NOTE = ("Trusted: Lean 4.33.0 kernel; axioms per theorem as printed by #p
 
 # property id -> dict(level, text, technique, note, design_ref)
 CLAIMED = {
+    "C03": dict(
+        level="proof",
+        text="Lean theorems about an abstract machine over dumped code blocks (state = address x depths of value stack above the "
+             "registers, environment chain above env_fp, pending binding references, plus the constants held by JumpTable dispatch "
+             "registers): check_sound (an annotation accepted by the executable check contains EVERY state reachable along ANY path, "
+             "of any length, incl. exception edges), wellformed_everywhere / never_stuck (each reachable instruction decodes, operands "
+             "inside register file / constant / binding / IC / scope tables, jump and handler targets are instruction starts, no depth "
+             "underflows, handler environment counts never exceed the chain), depths_agree (depths are a function of the address), "
+             "operands_in_range, locator_in_chain (a Stack(i) locator names an existing environment: i < env_fp + depth), handler_edge. "
+             "The compiled blocks of generated programs (every block, recursively through function constants) are the input of the proved "
+             "check; the opcode/operand table is regenerated from vm/opcode/mod.rs on every run; the hand-written effect table, entry and "
+             "handler-entry states and env_fp propagation are validated by a per-instruction probe of the running VM (every observed "
+             "(pc, depths, env_fp) must be a state of the accepted annotation).",
+        technique="Lean 4 proof of a bytecode verifier (closure/induction over reachability) run on every compiled block + translator for the opcode table + per-instruction probe correspondence",
+        note="Needs the boa_verif hooks (dump_code_blocks, probe). Blocks compiled at run time (eval, Function()) are not dumped; opcodes the generators never produce have an unvalidated effect entry (listed in the evidence).",
+    ),
     "C07": dict(
         level="proof",
         text="Lean theorems about a model of the VM's frame chain and value-stack length (push_frame, handle_return, handle_throw, "
@@ -111,7 +127,7 @@ CLAIMED = {
 
 ALL = ["C%02d" % i for i in range(1, 21)]
 NOT_YET = "not claimed yet: model, correspondence and first theorem for this property are not built (see DESIGN.md §7 build order)"
-HOOK_COMMITS = ["ee8c1f4", "5c06b44", "e155a04"]
+HOOK_COMMITS = ["ee8c1f4", "5c06b44", "e155a04", "1e55d63", "9e69b21", "f5f85fd"]
 
 
 def manifest():
